@@ -132,10 +132,10 @@ func verifSigStaticBool(root *vNode) bool {
 }
 
 // Finding "or with an always-returning left side": parseBinOps marks the right side of `or` dead whenever the left
-// side always returns something, but `or` drops a right-hand series only if its matching signature equals that of a
+// side always returns something (it is built from vector(k) / numbers), but `or` drops a right-hand series only if its matching signature equals that of a
 // left-hand series; that is certain only for on() with an empty list.
 func verifSigOrLHS(root *vNode) bool {
-	if root.op != vOpOr {
+	if root.op != vOpOr || !verifConstLike(root.l) {
 		return false
 	}
 	if !root.con {
